@@ -128,7 +128,48 @@ def r14_2(chk, cr, fx, memos, mutators):
                      f" (writes: {[w.how for w in ws][:3]})")
 
 
+def external_consumers(chk, cr, methods):
+    """Module-level functions of chmpy that Crystal's methods hand ``self`` to (exporters, structure factors, ...)."""
+    out = {}
+    for fn in methods:
+        ev = Ev(fn, cr.ctx).run()
+        for e in ev.events:
+            if e.kind != "call":
+                continue
+            a = e.value.as_atom()
+            if not a or a[0] != "call" or not any(x.key() == "self" for x in a[2]):
+                continue
+            c = a[1].as_atom()
+            if not c or c[0] != "name":
+                continue
+            full = c[1] if c[1].startswith("chmpy.") else cr.ctx.alias.get(c[1], "")
+            # function-level imports
+            if not full:
+                for imp in ev.events:
+                    if imp.kind == "import" and imp.extra.get("names", {}).get(c[1]):
+                        full = imp.extra["names"][c[1]]
+            hit = chk.repo.resolve_symbol(full) if full.startswith("chmpy.") else None
+            if hit and hit[1] in hit[0].funcs:
+                out[(hit[0].rel, hit[1])] = (fn.name, [i for i, x in enumerate(a[2]) if x.key() == "self"][0])
+    return out
+
+
+def r14_3_external(chk, cr, methods):
+    from ..effects import param_mutations
+    cons = external_consumers(chk, cr, methods)
+    for (rel, q), (caller, argi) in sorted(cons.items()):
+        m = chk.repo.module(rel)
+        chk.saw(rel, q)
+        pn = [a.arg for a in m.funcs[q].args.args]
+        mut = param_mutations(chk.repo, m, q, extra=frozenset(MEMO_GETTERS | {"slab"}))
+        bad = mut.get(pn[argi]) if argi < len(pn) else None
+        chk.ob("R14.3", rel, q, f"the function Crystal.{caller} hands the crystal to modifies neither the crystal nor the cached data its queries return",
+               not bad, node=m.funcs[q], fingerprint=f"external:{q}", found=(bad or [])[:3])
+    return len(cons)
+
+
 def r14_3(chk, cr, fx, methods, writes, mutators, memos):
+    r14_3_external(chk, cr, methods)
     mol = chk.repo.module("core/molecule.py")
     mfx = Effects(chk.repo)
     inplace_mol = set()
